@@ -4,7 +4,7 @@
 //! several values x the actor's level at t-1 / t / t+1 (through a `users` entry, through
 //! `users_default`, or through neither) x the target's level below / equal / above the actor's
 //! (entry or default) x the target's membership x integer vs string spelling. Thorough enumerates
-//! the products, quick samples them.
+//! the products in full, quick samples them.
 //! (b) Random instances: random power-level contents (every field absent/present, levels anywhere,
 //! malformed spellings and shapes), random actor/target/membership/type/state key, all helpers.
 use h_lib::{h_util, stok, Req, Rng};
@@ -196,7 +196,7 @@ const THRESHOLDS: [Option<i64>; 6] = [None, Some(-1), Some(0), Some(1), Some(50)
 /// ban / kick / unban / invite.
 fn fam_user_actions(o: &mut Out, tier: &str) {
     // versions x 4 ops x thresholds x 2 (other threshold) x 7 actor x 4 target x 7 memberships x 2 spellings x 2 targets
-    set_keep(o, tier, 9 * 4 * 6 * 3 * 7 * 4 * 7 * 2 * 2, 2600, 90_000);
+    set_keep(o, tier, 9 * 4 * 6 * 3 * 7 * 4 * 7 * 2 * 2, 2600, 1_000_000);
     for ver in 3..=11u32 {
         for op in ["ban", "kick", "unban", "invite"] {
             let (field, dflt, membership) = match op {
@@ -247,7 +247,7 @@ fn fam_user_actions(o: &mut Out, tier: &str) {
 
 /// message and state events of every type in `TYPES`.
 fn fam_send(o: &mut Out, tier: &str) {
-    set_keep(o, tier, 9 * 2 * 22 * 4 * 4 * 7 * 2 * 3, 2200, 70_000);
+    set_keep(o, tier, 9 * 2 * 22 * 4 * 4 * 7 * 2 * 3, 2200, 1_000_000);
     for ver in 3..=11u32 {
         for op in ["msg", "state"] {
             let dfield = if op == "msg" { "events_default" } else { "state_default" };
